@@ -74,6 +74,39 @@ static void describe_main(uint64_t idx, FILE *f) {
     fprintf(f, ",\"f2\":"); shape_json(f, &FULL[f2]);
 }
 
+/* linux2: two interfaces with different MTUs served by one responder (as every daemon does): f1 on one interface,
+ * f2 on the other, both orders; each interface has its own malloc(its MTU) receive buffer.
+ * idx = ((order * (NF1+1)) + f1) * NFULL + f2 */
+static uint8_t *recv2[2]; static size_t mtu2[2]; static automata *amap2[2], *asess2[2];
+static void deliver2(int ifc, const shape *s) {
+    MTU = mtu2[ifc]; OWN = W.iface[ifc].mac;
+    size_t L = render(s, img);
+    if (L == 0) return;
+    memcpy(recv2[ifc], img, L);
+    lltd_demultiplex_header_t *h = (lltd_demultiplex_header_t *)recv2[ifc];
+    switch_state_mapping(amap2[ifc], h->opcode, "rx"); switch_state_session(asess2[ifc], h->opcode, "rx");
+    parseFrame(recv2[ifc], vf_ctx(ifc));
+}
+static void exec_two(uint64_t idx) {
+    int f2 = (int)(idx % (uint64_t)NFULL); uint64_t r = idx / (uint64_t)NFULL; int f1 = (int)(r % (uint64_t)(NF1 + 1)); int order = (int)(r / (uint64_t)(NF1 + 1));
+    vf_world_reset(); vf_trace_clear();
+    for (int i = 0; i < 2; i++) { memset(recv2[i], (int)A.fill, mtu2[i]); amap2[i] = init_automata_mapping(); asess2[i] = init_automata_session(); }
+    int a = order, b = 1 - order;
+    if (f1) deliver2(a, &FIRST[f1 - 1]);
+    else { shape s = { 0x02, 0, 16, 1, 1, 0, 1, 0, 0, 0 }; deliver2(a, &s); }       /* no scripted first frame: a one-descriptor Emit on the first interface */
+    vf_trace_clear();
+    deliver2(b, &FULL[f2]);
+    if ((idx & 0xfff) == 0) vf_outcome(vf_trace_hash() ^ (uint64_t)order);
+    vf_trace_clear();
+    MTU = mtu2[0]; OWN = W.iface[0].mac;
+}
+static void describe_two(uint64_t idx, FILE *f) {
+    int f2 = (int)(idx % (uint64_t)NFULL); uint64_t r = idx / (uint64_t)NFULL; int f1 = (int)(r % (uint64_t)(NF1 + 1)); int order = (int)(r / (uint64_t)(NF1 + 1));
+    fprintf(f, "\"events\":[%llu],\"first_interface\":%d,\"mtu_if0\":%zu,\"mtu_if1\":%zu,\"f1\":", (unsigned long long)idx, order, mtu2[0], mtu2[1]);
+    if (f1) shape_json(f, &FIRST[f1 - 1]); else fprintf(f, "\"one-descriptor Emit\"");
+    MTU = mtu2[1 - order]; fprintf(f, ",\"f2\":"); shape_json(f, &FULL[f2]); MTU = mtu2[0];
+}
+
 /* flood: idx = mtu_index * 6 + variant.  Full see-lists at every alignment of the frame end: a Discover, n distinct
  * observations (n around the QueryResp capacity), two Queries, a second round. */
 static const int FLOOD_MTUS[] = {576, 577, 578, 579, 580, 581, 582, 583, 584, 585, 586, 587, 588, 589, 590, 591, 592, 593, 594, 595, 1492, 1493, 1500, 9212, 9216};
@@ -129,7 +162,7 @@ int main(int argc, char **argv) {
     vf_world_init(A.mtu, A.wifi, (uint8_t)A.fill);
     MTU = A.mtu; OWN = W.iface[0].mac;
     drv = !strcmp(A.mode, "darwin") ? 1 : !strcmp(A.mode, "esp32") ? 2 : 0;
-    int flood = !strcmp(A.mode, "flood");
+    int flood = !strcmp(A.mode, "flood"); int two = !strcmp(A.mode, "linux2");
     build_full();
     NPRE = A.a > 0 ? (int)A.a : (vf_thorough() ? 5 : 3);
     NF1 = A.b > 0 ? (int)A.b : (vf_thorough() ? 40 : 8);
@@ -137,7 +170,8 @@ int main(int argc, char **argv) {
     NF1 = NFIRST;
     recvbuf = malloc(MTU);
     double t0 = vf_now_s();
-    fr_cfg fc = { .exec = flood ? exec_flood : drv == 2 ? exec_esp : exec_main, .describe = flood ? describe_flood : drv == 2 ? describe_esp : describe_main, .sig_prefix = "memory-safety" };
+    if (two) { mtu2[0] = MTU; mtu2[1] = MTU == 576 ? 1500 : 576; W.iface[1].mtu = mtu2[1]; recv2[0] = malloc(mtu2[0]); recv2[1] = malloc(mtu2[1]); }
+    fr_cfg fc = { .exec = two ? exec_two : flood ? exec_flood : drv == 2 ? exec_esp : exec_main, .describe = two ? describe_two : flood ? describe_flood : drv == 2 ? describe_esp : describe_main, .sig_prefix = "memory-safety" };
     fr_stats st;
     if (A.replay) {
         FILE *f = fopen(A.replay, "r"); static char buf[1 << 16]; size_t n = f ? fread(buf, 1, sizeof buf - 1, f) : 0; buf[n] = 0; if (f) fclose(f);
@@ -149,11 +183,13 @@ int main(int argc, char **argv) {
     }
     uint64_t total, lo, hi;
     if (flood) { total = (uint64_t)NFLOOD_MTU * 6; lo = 0; hi = total; }
+    else if (two) { total = 2ull * (uint64_t)(NF1 + 1) * (uint64_t)NFULL; lo = total * (uint64_t)A.part / (uint64_t)A.nparts; hi = total * (uint64_t)(A.part + 1) / (uint64_t)A.nparts; }
     else if (drv == 2) { NIMG = NFIRST + 40; total = (uint64_t)NIMG * (MTU + 1); lo = total * (uint64_t)A.part / (uint64_t)A.nparts; hi = total * (uint64_t)(A.part + 1) / (uint64_t)A.nparts; }
     else { total = (uint64_t)NPRE * (uint64_t)(NF1 + 1) * (uint64_t)NFULL; lo = total * (uint64_t)A.part / (uint64_t)A.nparts; hi = total * (uint64_t)(A.part + 1) / (uint64_t)A.nparts; }
     fr_run(&fc, lo, hi, &st);
     R.evaluations = st.executed; R.exhaustive = st.cap == NULL; R.cap_hit = st.cap;
-    if (flood) vf_sample("flood: %d MTUs (every residue mod 20 and 14, PPPoE, jumbo) x 6 see-list sizes around the QueryResp capacity x 2 rounds of [observations ; Query ; Query] under ASan/UBSan", NFLOOD_MTU);
+    if (two) vf_sample("two interfaces (MTU %zu and %zu) on one responder: (%d first frames + a one-descriptor Emit) on one interface, then each of %d second frames on the other, both orders; executions [%llu,%llu)", mtu2[0], mtu2[1], NF1, NFULL, (unsigned long long)lo, (unsigned long long)hi);
+    else if (flood) vf_sample("flood: %d MTUs (every residue mod 20 and 14, PPPoE, jumbo) x 6 see-list sizes around the QueryResp capacity x 2 rounds of [observations ; Query ; Query] under ASan/UBSan", NFLOOD_MTU);
     else if (drv == 2) vf_sample("esp32 entry: %d frame images x every told length 0..%zu, each handed over as a heap block of exactly that length", NIMG, MTU);
     else vf_sample("%s flavour: %d prefixes x (%d first frames + none) x %d second frames (per-opcode field-class products, all 256 opcodes), MTU %zu, receive buffer malloc(MTU) pre-filled with 0x%02x; executions [%llu,%llu) of %llu", drv ? "darwin" : "linux", NPRE, NF1, NFULL, MTU, A.fill, (unsigned long long)lo, (unsigned long long)hi, (unsigned long long)total);
     vf_extra("shape_space", "%d second-frame shapes, %d first-frame shapes, %d prefixes", NFULL, NF1, NPRE);
